@@ -175,7 +175,7 @@ Proof.
   - destruct (negb (check_canonical_version path vers)); [exact K|]. destruct (existsb _ (k_exclude k)); [exact K|].
     kcase K. all: try (apply Forall_app; split; [assumption|constructor; [assumption|constructor]]).
   - kcase K. all: try (apply drop_forall; assumption).
-  - kcase K. apply upsert_forall; auto. intros [[[a b] c] d] _ _. exact Hs.
+  - kcase K. apply upsert_forall; auto. all: try (intros [[[? ?] ?] ?] _ _; exact Hs).
   - kcase K. all: try (apply drop_forall; assumption).
   - destruct (check_canonical_version _ hi && check_canonical_version _ lo); [|exact K].
     kcase K. all: try (apply Forall_app; split; [assumption|constructor; [assumption|constructor]]).
@@ -190,12 +190,12 @@ Proof.
   - kcase K.
   - kcase K. apply upsert_forall; auto. intros g Hg E. cbn [fst snd]. apply str_eqb_eq in E. rewrite E. exact Hs.
   - kcase K. all: try (apply drop_forall; assumption).
-  - kcase K. apply upsert_forall; auto. intros u Hu E. cbn [fst snd]. exact Hu.
+  - kcase K. apply upsert_forall; auto.
   - kcase K. all: try (apply Forall_app; split; [assumption|constructor; [assumption|constructor]]).
   - apply kdedup_ok. kcase K. apply set_keyed_forall. unfold want_uses.
     apply (fold_amap_vals fst (fun q : str * str => q) (fun u => P (ItUse (fst u)))); [exact Hs|constructor].
   - kcase K. all: try (apply drop_forall; assumption).
-  - kcase K. apply upsert_forall; auto. intros [[[a b] c] d] _ _. exact Hs.
+  - kcase K. apply upsert_forall; auto. all: try (intros [[[? ?] ?] ?] _ _; exact Hs).
   - kcase K. all: try (apply drop_forall; assumption).
   - apply kdedup_ok. exact K.
 Qed.
